@@ -1,6 +1,7 @@
 (** C06 proofs, part 1: what [wf_build] gives, and what the healer's filesystem actions do on an
     entry all of whose ancestors are real directories. *)
-From Wharf Require Import Base.Prelude FS.Tree FS.TreeProofs FS.Ops FS.OpsProofs Heal.Validator Heal.Healer.
+From Coq Require Import Arith Lia.
+From Wharf Require Import FS.Light FS.Tree FS.TreeProofs FS.Ops FS.OpsProofs Heal.Validator Heal.Healer.
 
 Lemma existsb_path_In : forall p l, existsb (path_eqb p) l = true <-> In p l.
 Proof.
